@@ -1036,11 +1036,19 @@ pub fn c15(spec: &WorldSpec, ex: &Exec) -> Option<Viol> {
             Ev::Send(Actor::Probe(_), m) if m.is_terminal() => disposed = true,
             Ev::Call(CALL_NEXT, _) => {
                 calls += 1;
+                if disposed {
+                    found = Some(viol(spec, "iterator-advanced-after-disposal", i, "next() was called after the sink disposed".into()));
+                    return;
+                }
                 if calls > pulls {
                     found = Some(viol(spec, "iterator-advanced-without-pull", i, format!("{calls} next() calls but only {pulls} Pulls")));
                 }
             },
             Ev::In(Actor::Probe(_), m) => {
+                if disposed {
+                    found = Some(viol(spec, "delivery-after-disposal", i, format!("{m:?} was delivered after the sink disposed")));
+                    return;
+                }
                 // emission deliveries (Data / Terminate) never nest; the greeting is not an emission, so
                 // a sink pulling from inside its handshake handler is served inside that call (depth 2,
                 // independent of the number of items)
